@@ -5,15 +5,12 @@
 #![allow(clippy::too_many_arguments)]
 #![allow(dead_code)]
 
-mod ctx;
-mod mon;
-mod prng;
-#[cfg(feature = "sodium")]
-mod sodium;
-
 use std::collections::BTreeMap;
 
-use ctx::{Ctx, Tier};
+use vmon::ctx::{self, Ctx, Tier};
+use vmon::mon;
+#[cfg(feature = "sodium")]
+use vmon::sodium;
 
 #[global_allocator]
 static GLOBAL: ctx::CountingAlloc = ctx::CountingAlloc;
